@@ -86,6 +86,15 @@ Patterns(e) ==
    \cup UNION {{[pat |-> ReplaceAt(ReplaceAt(e, p, Wild(SubAt(e, p).w, 1)), q, Wild(SubAt(e, p).w, 1)),
                  wild |-> <<Wild(SubAt(e, p).w, 1)>>] :
                    q \in {q \in ps : ~IsPrefixP(p, q) /\ ~IsPrefixP(q, p) /\ SubAt(e, q).w = SubAt(e, p).w}} : p \in ps}
+\* partial substitution: the same wildcard abstracts two positions, but in the expression one of them holds the wildcard
+\* IDENTIFIER itself (the expression mentions the identifier that the pattern uses as a wildcard): an instance only if the
+\* other position holds that identifier too
+Partial(e) ==
+   LET ps == Abstractable(e) IN
+   UNION {{[e |-> ReplaceAt(e, q, Wild(SubAt(e, p).w, 1)),
+            pat |-> ReplaceAt(ReplaceAt(e, p, Wild(SubAt(e, p).w, 1)), q, Wild(SubAt(e, p).w, 1)),
+            wild |-> <<Wild(SubAt(e, p).w, 1)>>] :
+              q \in {q \in ps : ~IsPrefixP(p, q) /\ ~IsPrefixP(q, p) /\ SubAt(e, q).w = SubAt(e, p).w}} : p \in ps}
 \* same-shape non-instances: a pattern of e matched against a mutation of e outside the abstracted positions
 \* is produced by the generator as (Mutation(e), pattern of e).
 
